@@ -808,6 +808,11 @@ func (c *Chunker) splitSectionByParagraphs(section *Section, chunkIndex *int, do
 				prevChunk.Metadata.WordCount = countWords(prevChunk.Text)
 				prevChunk.Metadata.EstimatedTokens = len(prevChunk.Text) / 4
 				prevChunk.TextWithContext = prevChunk.generateContextualText()
+				for _, elem := range currentElements {
+					if elem.Page > prevChunk.Metadata.PageEnd {
+						prevChunk.Metadata.PageEnd = elem.Page
+					}
+				}
 				currentText.Reset()
 				currentElements = nil
 				elementTypes = nil
@@ -833,6 +838,7 @@ func (c *Chunker) splitSectionByParagraphs(section *Section, chunkIndex *int, do
 
 		chunk := c.createChunk(text, section, *chunkIndex, docTitle, elementTypes, hasTable, hasList, hasImage, bbox)
 		chunk.Metadata.Level = ChunkLevelParagraph
+		narrowPagesToElements(chunk, currentElements...)
 		chunks = append(chunks, chunk)
 		*chunkIndex++
 
@@ -925,6 +931,7 @@ func (c *Chunker) splitSectionByParagraphs(section *Section, chunkIndex *int, do
 				}
 				chunk := c.createChunk(atomicStr, section, *chunkIndex, docTitle, atomicTypes, atomicHasTable, atomicHasList, atomicHasImage, bbox)
 				chunk.Metadata.Level = ChunkLevelParagraph
+				narrowPagesToElements(chunk, atomicElements...)
 				chunks = append(chunks, chunk)
 				*chunkIndex++
 			}
@@ -1055,6 +1062,7 @@ func (c *Chunker) splitBySentences(text string, section *Section, chunkIndex *in
 			chunk := c.createChunk(chunkText, section, *chunkIndex, docTitle,
 				[]string{elem.Type.String()}, false, false, false, &elem.BBox)
 			chunk.Metadata.Level = ChunkLevelSentence
+			narrowPagesToElements(chunk, elem)
 			chunks = append(chunks, chunk)
 			*chunkIndex++
 			currentText.Reset()
@@ -1072,11 +1080,30 @@ func (c *Chunker) splitBySentences(text string, section *Section, chunkIndex *in
 		chunk := c.createChunk(chunkText, section, *chunkIndex, docTitle,
 			[]string{elem.Type.String()}, false, false, false, &elem.BBox)
 		chunk.Metadata.Level = ChunkLevelSentence
+		narrowPagesToElements(chunk, elem)
 		chunks = append(chunks, chunk)
 		*chunkIndex++
 	}
 
 	return chunks
+}
+
+// narrowPagesToElements sets the page range of a chunk that holds only part of a section to
+// the pages of the elements it was built from (createChunk reports the whole section's range).
+func narrowPagesToElements(chunk *Chunk, elems ...ContentElement) {
+	first := true
+	for _, elem := range elems {
+		if elem.Page <= 0 {
+			continue
+		}
+		if first || elem.Page < chunk.Metadata.PageStart {
+			chunk.Metadata.PageStart = elem.Page
+		}
+		if first || elem.Page > chunk.Metadata.PageEnd {
+			chunk.Metadata.PageEnd = elem.Page
+		}
+		first = false
+	}
 }
 
 // createChunk creates a new Chunk with the given parameters
